@@ -234,6 +234,9 @@ def check(F, rep, tier):
         ok = len(elems) == 4 and got_ts[:3] == want and "Patch" in elems[3]
         if ok: rep.ok("R17.6", "calver core = [ts(YYYY), ts(MM), ts(DD), Patch]", sample=elems, nontrivial_key="calver")
         else: rep.bad("R17.6", "calver-core", "calver_core is %s, expected [ts(YYYY), ts(MM), ts(DD), var(Patch)]" % elems, cc.where())
+    # ---- R17.7 dependencies: the instant that is formatted is the commit time git reports, or the one given on the command line -------
+    core.borrow(F, rep, "c02", "C02", "R17.7", ("argv:get_commit_timestamp#0", "argv:get_tag_timestamp#0", "tag-peel", "wiring:bumped_timestamp", "wiring:last_timestamp"), "the timestamps are the committer dates of HEAD and of the tagged commit")
+    core.borrow(F, rep, "c05", "C05", "R17.7", ("override-depends-on-value:bumped_timestamp",), "--bumped-timestamp is applied whenever it is given (0 = the epoch included)")
     return core.finish(rep, explanation=EXPL, assumptions=ASSUME, trusted=TRUST)
 
 EXPL = ("Structural clauses of C17: the accepted list is the 16 documented names; each documented pattern has its own arm in resolve_timestamp (none falls through to the literal arm) and the chrono format constant that reaches "
